@@ -32,15 +32,18 @@ func (c06) Gen(tier string, seed int64) []fw.Unit {
 	for i := 0; i < n; i++ {
 		us = append(us, fw.U("ean.random", nil, "random", r.Int63(), 12500))
 	}
+	const blk = 1000000
+	for lo := int64(0); lo < 10000000; lo += blk {
+		us = append(us, fw.U("ean.range", nil, "exhaustive-7", 7, lo, lo+blk))
+	}
+	for i := 0; i < 10; i++ {
+		us = append(us, fw.U("ean.random13", nil, "random-13", r.Int63(), 100000))
+	}
 	if tier == "thorough" {
-		const blk = 1000000
-		for lo := int64(0); lo < 10000000; lo += blk {
-			us = append(us, fw.U("ean.range", nil, "exhaustive-7", 7, lo, lo+blk))
-		}
 		for lo := int64(0); lo < 100000000; lo += blk {
 			us = append(us, fw.U("ean.range", nil, "exhaustive-8", 8, lo, lo+blk))
 		}
-		for i := 0; i < 50; i++ {
+		for i := 0; i < 200; i++ {
 			us = append(us, fw.U("ean.random13", nil, "random-13", r.Int63(), 100000))
 		}
 	}
